@@ -26,7 +26,9 @@ def main():
         meta = json.load(open(d + "/meta.json"))
         rec = {"id": mid, "when": time.strftime("%F %T"), "repo_head": subprocess.run("git -C /repo rev-parse --short HEAD", shell=True, stdout=subprocess.PIPE, text=True).stdout.strip()}
         sh("git checkout -q --detach $(git -C /repo rev-parse HEAD) && git checkout -q -- . && git clean -fdq -e target")
-        demo_cmd = re.sub(r"CARGO_TARGET_DIR=\S+\s*", "", meta["demo_cmd"]).strip()
+        demo_cmd = re.sub(r"export\s+CARGO_TARGET_DIR=\S+\s*;?\s*", "", meta["demo_cmd"])
+        demo_cmd = re.sub(r"CARGO_TARGET_DIR=\S+\s*", "", demo_cmd)
+        demo_cmd = re.sub(r"cd\s+/tmp/mut/\S+\s*&&\s*", "", demo_cmd).strip()
         crates = sorted(set(f.split("/")[0] for f in meta.get("files", [])))
         a = sh("git apply %s/demo.diff" % d)
         if a.returncode:
@@ -47,7 +49,8 @@ def main():
                 suite = []
                 for c in crates:
                     extra = " --lib" if c == "ntpd" else ""
-                    r3 = sh("cargo test -p %s --offline --no-fail-fast%s" % (c, extra), timeout=3000)
+                    pk = "-p statime-csptp -p ntp-proto" if c == "statime-csptp" else "-p " + c
+                    r3 = sh("cargo test %s --offline --no-fail-fast%s" % (pk, extra), timeout=3000)
                     failed = re.findall(r"^test (\S+) \.\.\. FAILED", r3.stdout, re.M)
                     suite.append({"crate": c, "results": summarize(r3.stdout), "failed_tests": failed})
                 rec["suite_with_change"] = suite
